@@ -175,6 +175,10 @@ pub fn gen_magic_batch(d: &mut D) -> Vec<Spec> {
             if d.ratio(1, 3) {
                 s.container.attributes.push("atb".into());
             }
+            // a multi-segment attribute name next to the (possibly multi-segment) names of a forward_attrs list
+            if d.ratio(1, 4) {
+                s.container.attributes.push("ns::at".into());
+            }
             // ordinary fields
             let nf = d.below(3);
             let mut fields = vec![];
@@ -214,6 +218,13 @@ pub fn gen_magic_batch(d: &mut D) -> Vec<Spec> {
         s.container.attributes = vec![];
         s.container.forward_attrs = Fwd::List(vec![]);
         s.magic = vec![magic("attrs"), magic("ident")];
+        specs.push(s);
+        // the same with a custom converter on `attrs` (it must still be called, with nothing)
+        let sid = next(&specs);
+        let mut s = base_spec(sid, tr, "c16");
+        s.container.attributes = vec![];
+        s.container.forward_attrs = Fwd::List(vec![]);
+        s.magic = vec![Magic { wrap: "with".into(), ..magic("attrs") }];
         specs.push(s);
     }
     specs
